@@ -145,6 +145,15 @@ def monitor22(w, rec, res, params):
                       f"{rv:#x} changes the outcome (action {r2} instead of "
                       f"{rec['action']})", case=desc)
         return
+    if rec.get("counter_dependence"):
+        cv, r3, ran3, c3 = rec["counter_dependence"]
+        res.violation("unexplained:outcome-depends-on-the-upper-counter-bits",
+                      f"with the group's loop counter at {cv:#x} instead of "
+                      f"{cv & 0xff:#x} the same frame is treated differently "
+                      f"(action {r3}, program ran {ran3}, counter then "
+                      f"{c3:#x}; with the small counter: action "
+                      f"{rec['action']}, ran {rec['ran']})", case=desc)
+        return
     if rec["action"] not in (dispatch.TX, dispatch.PASS):
         res.violation("unexplained:dropped-frame",
                       f"dispatcher returned action {rec['action']}",
